@@ -68,30 +68,32 @@ impl Flags {
     }
 }
 
-type CharIndices<'a> =
-    core::iter::Chain<bstr::CharIndices<'a>, core::iter::Once<(usize, usize, char)>>;
-
 /// Mapping between byte and character indices.
-pub struct ByteChar<'a>(core::iter::Peekable<core::iter::Enumerate<CharIndices<'a>>>);
+pub struct ByteChar<'a> {
+    s: &'a [u8],
+    /// byte offset up to which characters have been counted
+    byte: usize,
+    /// number of characters in `s[..byte]`
+    chr: usize,
+}
 
 impl<'a> ByteChar<'a> {
     pub fn new(s: &'a [u8]) -> Self {
-        let last = core::iter::once((s.len(), 0, '\0'));
-        Self(s.char_indices().chain(last).enumerate().peekable())
+        Self { s, byte: 0, chr: 0 }
     }
 
     /// Convert byte offset to UTF-8 character offset.
     ///
-    /// This needs to be called with monotonically increasing values of `byte_offset`.
+    /// This is fastest when called with monotonically increasing values of `byte_offset`;
+    /// however, a capture group may start before a previously reported one,
+    /// e.g. the groups of `(?:(a)|(b))*` on `"ba"`, in which case we start over.
     fn char_of_byte(&mut self, byte_offset: usize) -> Option<usize> {
-        loop {
-            let (char_i, (byte_i, _, _char)) = self.0.peek()?;
-            if byte_offset == *byte_i {
-                return Some(*char_i);
-            } else {
-                self.0.next();
-            }
+        if byte_offset < self.byte {
+            (self.byte, self.chr) = (0, 0);
         }
+        self.chr += self.s.get(self.byte..byte_offset)?.chars().count();
+        self.byte = byte_offset;
+        Some(self.chr)
     }
 }
 
